@@ -16,6 +16,11 @@ type lineLimitReader struct {
 	LineLimit int
 
 	curLineLength int
+
+	// held is input that has been read from R but not handed out yet: what
+	// followed the last complete line of a Read in which a later line went
+	// over the limit.
+	held []byte
 }
 
 // exceeded reports whether the current line has been refused.
@@ -28,9 +33,16 @@ func (r *lineLimitReader) Read(b []byte) (int, error) {
 		return 0, ErrTooLongLine
 	}
 
-	n, err := r.R.Read(b)
-	if err != nil {
-		return n, err
+	var n int
+	if len(r.held) > 0 {
+		n = copy(b, r.held)
+		r.held = r.held[n:]
+	} else {
+		var err error
+		n, err = r.R.Read(b)
+		if err != nil {
+			return n, err
+		}
 	}
 
 	if r.LineLimit == 0 {
@@ -40,13 +52,25 @@ func (r *lineLimitReader) Read(b []byte) (int, error) {
 		return n, nil
 	}
 
-	for _, chr := range b[:n] {
+	lineStart := 0
+	for i, chr := range b[:n] {
 		if chr == '\n' {
 			r.curLineLength = 0
+			lineStart = i + 1
 		}
 		r.curLineLength++
 
 		if r.curLineLength > r.LineLimit {
+			if lineStart > 0 {
+				// Complete lines precede the one that is too long: they
+				// are handed out first (they may be commands that have to
+				// be answered, or a BDAT command whose chunk is what
+				// looks like a long line here). The rest is looked at
+				// again by the next Read.
+				r.held = append(append([]byte(nil), b[lineStart:n]...), r.held...)
+				r.curLineLength = 1
+				return lineStart, nil
+			}
 			return 0, ErrTooLongLine
 		}
 	}
